@@ -6,35 +6,8 @@ import AmVerif.Model.PatchDiff
 namespace AmVerif.Crdt
 open AmVerif
 
-/-- finding D16: a put of the winner's own value on a conflicted register -/
-def d16Class (ops : List PVal) (a : LocalAct) : Bool :=
-  match a with
-  | .put v => decide (ops.length > 1) && ops.getLast? == some v && v.isScalar
-  | _ => false
-
-/-- finding D17: an increment on a register holding more than one counter -/
-def d17Class (ops : List PVal) (a : LocalAct) : Bool :=
-  match a with
-  | .inc _ => decide ((ops.filter PVal.isCounter).length > 1)
-  | _ => false
-
-theorem find_counter_of_filter {ops : List PVal} {x : PVal} (h : ops.filter PVal.isCounter = [x]) :
-    ops.find? PVal.isCounter = some x := by
-  induction ops with
-  | nil => simp at h
-  | cons v rest ih =>
-    by_cases hv : v.isCounter = true
-    · simp [List.filter_cons, hv] at h
-      rw [List.find?_cons]
-      have hxv : x.isCounter = true := by rw [← h.1]; exact hv
-      simp [hv, ← h.1]
-    · simp [List.filter_cons, hv] at h
-      rw [List.find?_cons]
-      simp [hv, ih h]
-
 theorem finalizeOp_sound (ops : List PVal) (a : LocalAct)
-    (hpre : ∀ n, a = .inc n → (ops.filter PVal.isCounter).length ≥ 1)
-    (h16 : d16Class ops a = false) (h17 : d17Class ops a = false) :
+    (hpre : ∀ n, a = .inc n → (ops.filter PVal.isCounter).length ≥ 1) :
     applyEvent (localBefore ops) (finalizeOp ops a) = .ok (localAfter ops a) := by
   cases a with
   | put v =>
@@ -42,13 +15,12 @@ theorem finalizeOp_sound (ops : List PVal) (a : LocalAct)
     | none => simp [finalizeOp, hl, applyEvent, localAfter]
     | some w =>
       by_cases heq : (w == v && v.isScalar) = true
-      · -- the winner's own value: allowed only when the register is not conflicted
-        have hwv : w = v := eq_of_beq ((Bool.and_eq_true _ _).mp heq).1
+      · have hwv : w = v := eq_of_beq ((Bool.and_eq_true _ _).mp heq).1
         have hsc : v.isScalar = true := ((Bool.and_eq_true _ _).mp heq).2
-        have hlen : ¬ ops.length > 1 := by
-          intro hgt
-          simp [d16Class, hgt, hl, hwv, hsc] at h16
-        simp [finalizeOp, hl, heq, applyEvent, localBefore, localAfter, hwv, hlen, hsc]
+        by_cases hlen : ops.length > 1
+        · -- a conflict is resolved: the winner is put again without the flag
+          simp [finalizeOp, hl, heq, hlen, applyEvent, localAfter, hwv, hsc]
+        · simp [finalizeOp, hl, heq, applyEvent, localBefore, localAfter, hwv, hlen, hsc]
       · simp [finalizeOp, hl, heq, applyEvent, localAfter]
   | del =>
     by_cases he : ops.isEmpty = true
@@ -57,36 +29,30 @@ theorem finalizeOp_sound (ops : List PVal) (a : LocalAct)
     · simp [finalizeOp, he, applyEvent, localAfter]
   | inc n =>
     have hge := hpre n rfl
-    have hone : (ops.filter PVal.isCounter).length = 1 := by
-      have : ¬ (ops.filter PVal.isCounter).length > 1 := by
-        intro h; simp [d17Class, h] at h17
-      omega
-    obtain ⟨x, hx⟩ := List.length_eq_one_iff.mp hone
-    have hxc : x.isCounter = true := by
-      have : x ∈ ops.filter PVal.isCounter := by rw [hx]; simp
-      exact (List.mem_filter.mp this).2
-    obtain ⟨c, hc⟩ : ∃ c, x = .scalar (.counter c) := by
-      cases x with
-      | obj t => simp [PVal.isCounter] at hxc
-      | scalar s => cases s <;> simp [PVal.isCounter] at hxc; exact ⟨_, rfl⟩
-    subst hc
-    have hafter : localAfter ops (.inc n) = some (false, .scalar (.counter (c + n))) := by
-      simp [localAfter, hx, PVal.bump]
-    rw [hafter]
     by_cases hlen : ops.length > 1
-    · simp [finalizeOp, hlen, find_counter_of_filter hx, applyEvent, PVal.bump]
+    · -- every counter survives, the last one wins
+      cases hc : (ops.filter PVal.isCounter).getLast? with
+      | none =>
+        have : ops.filter PVal.isCounter = [] := List.getLast?_eq_none_iff.mp hc
+        rw [this] at hge; simp at hge
+      | some c =>
+        simp [finalizeOp, hlen, hc, applyEvent, localAfter, List.getLast?_map]
     · -- a single value, which is the counter
-      have hops : ops = [.scalar (.counter c)] := by
+      have hops : ∃ c, ops = [.scalar (.counter c)] := by
         cases ops with
-        | nil => simp at hx
+        | nil => simp at hge
         | cons v rest =>
           cases rest with
           | nil =>
             by_cases hv : v.isCounter = true
-            · simp [List.filter_cons, hv] at hx; simp [hx]
-            · simp [List.filter_cons, hv] at hx
+            · cases v with
+              | obj t => simp [PVal.isCounter] at hv
+              | scalar s => cases s <;> simp [PVal.isCounter] at hv; exact ⟨_, rfl⟩
+            · simp [List.filter_cons, hv] at hge
           | cons v2 r => simp at hlen
-      simp [finalizeOp, hops, applyEvent, localBefore]
+      obtain ⟨c, hops⟩ := hops
+      subst hops
+      simp [finalizeOp, applyEvent, localBefore, localAfter, PVal.isCounter, PVal.bump, List.filter_cons]
 
 /-! ### the applier -/
 
